@@ -28,6 +28,7 @@ pub struct Built {
     pub expected: Expected,
     pub counters: Counters,
     pub log_len: usize,
+    pub error_state: Option<(Vec<String>, CanonValue)>,
 }
 
 #[derive(Debug)]
@@ -61,32 +62,67 @@ pub fn print(p: &Program, hide: Hide) -> String {
     format!("{}{body} {result}", prelude(p))
 }
 
-pub fn reference(p: &Program) -> Result<(Expected, Counters, usize), Skip> {
+pub struct RefRun {
+    pub expected: Expected,
+    pub counters: Counters,
+    pub log_len: usize,
+    /// on a run-time error: the top-level names bound before the failing statement and the
+    /// canonical value of `(0, *log, names...)` at that moment
+    pub error_state: Option<(Vec<String>, CanonValue)>,
+}
+
+pub fn reference(p: &Program) -> Result<RefRun, Skip> {
     let log = RVal::Cell(Rc::new(CellData { declared: Ty::arr(Ty::Int), content: RefCell::new(RVal::Arr(Rc::new(vec![]))) }));
-    let env = refi::initial_env(&[("log".to_string(), log.clone())]);
+    let mut env = refi::initial_env(&[("log".to_string(), log.clone())]);
     let mut interp = Interp::new(200_000);
-    let outcome = (|| -> Result<RVal, Stop> {
-        let env = interp.block_env(&p.body, env)?;
-        // keep the log cell reachable under its name even if the program shadowed nothing else
-        interp.expr(&result_expr(p), &env)
-    })();
+    let mut bound: Vec<String> = vec![];
+    let mut failure: Option<Stop> = None;
+    for s in &p.body {
+        match interp.stmt(s, env.clone()) {
+            Ok((_, e)) => {
+                env = e;
+                for n in refi::declared_names(s) {
+                    bound.retain(|b| *b != n);
+                    bound.push(n);
+                }
+            }
+            Err(stop) => {
+                failure = Some(stop);
+                break;
+            }
+        }
+    }
     let counters = interp.counters.clone();
     let log_len = interp.log.len();
-    match outcome {
-        Ok(v) => {
-            // the reference keeps its own log: cross-check it against the cell it maintained
-            let expected_log: Vec<i64> = interp.log.clone();
-            let v = replace_log(v, &expected_log);
+    let skip = |stop: Stop| match stop {
+        Stop::Unspecified => Skip::Unspecified,
+        Stop::Budget => Skip::Budget,
+        Stop::Unsupported(w) => Skip::Unsupported(w),
+        _ => Skip::Unsupported("control flow escaped the program".into()),
+    };
+    match failure {
+        None => {
+            let v = interp.expr(&result_expr(p), &env).map_err(skip)?;
+            let v = replace_log(v, &interp.log.clone());
             match refi::rcanon(&v) {
-                Some(c) => Ok((Expected::Value(c), counters, log_len)),
+                Some(c) => Ok(RefRun { expected: Expected::Value(c), counters, log_len, error_state: None }),
                 None => Err(Skip::Unspecified),
             }
         }
-        Err(Stop::Error(k)) => Ok((Expected::Error(k.to_string()), counters, log_len)),
-        Err(Stop::Unspecified) => Err(Skip::Unspecified),
-        Err(Stop::Budget) => Err(Skip::Budget),
-        Err(Stop::Unsupported(w)) => Err(Skip::Unsupported(w)),
-        Err(Stop::Break) | Err(Stop::Continue) | Err(Stop::Return(_)) => Err(Skip::Unsupported("control flow escaped the program".into())),
+        Some(Stop::Error(k)) => {
+            // what a host can still observe: the names bound so far (cells show the effects of
+            // the failing statement up to the failure)
+            let mut items = vec![Expr::Int(0), Expr::Deref(Box::new(Expr::Var("log".into())))];
+            items.extend(bound.iter().map(|n| Expr::Var(n.clone())));
+            let state = interp
+                .expr(&Expr::Tuple(items), &env)
+                .ok()
+                .map(|v| replace_log(v, &interp.log.clone()))
+                .and_then(|v| refi::rcanon(&v))
+                .map(|c| (bound.clone(), c));
+            Ok(RefRun { expected: Expected::Error(k.to_string()), counters, log_len, error_state: state })
+        }
+        Some(stop) => Err(skip(stop)),
     }
 }
 
@@ -109,8 +145,8 @@ pub fn generate(tape: &mut Tape, profile: Profile) -> Program {
 
 pub fn build(tape: &mut Tape, profile: Profile) -> Result<Built, Skip> {
     let program = generate(tape, profile);
-    let (expected, counters, log_len) = reference(&program)?;
-    Ok(Built { program, expected, counters, log_len })
+    let r = reference(&program)?;
+    Ok(Built { program, expected: r.expected, counters: r.counters, log_len: r.log_len, error_state: r.error_state })
 }
 
 // ---------- constant analysis for the one permitted difference of folding ----------
